@@ -182,7 +182,7 @@ fn gen_anm(ch: &mut Chooser, game: Game, prof: &[u32]) -> AnmLayout {
     // sprite names
     let mut snames: Vec<String> = vec![];
     for k in 0..tot {
-        let mut alts = vec![format!("spr{k}")];
+        let mut alts = vec![format!("{}spr{k}", ["", "a", "z", "m"][k % 4])]; // (not in alphabetical order)
         for j in 0..k.min(3) { alts.push(snames[j].clone()); }
         alts.push("scr0".to_string());
         let a = ch.pick_w(alts.len(), c(F_NAMES));
@@ -212,7 +212,7 @@ fn gen_anm(ch: &mut Chooser, game: Game, prof: &[u32]) -> AnmLayout {
     // scripts
     let mut scripts: Vec<AnmScriptL> = vec![];
     for q in 0..tots {
-        let mut alts = vec![format!("scr{q}")];
+        let mut alts = vec![format!("{}scr{q}", ["", "a", "z"][q % 3])]; // (not in alphabetical order)
         if q > 0 { alts.push(scripts[0].name.clone()); }
         if tot > 0 { alts.push(snames[0].clone()); }
         let a = ch.pick_w(alts.len(), c(F_SCRIPTS));
@@ -1077,10 +1077,13 @@ fn plans(thorough: bool) -> Vec<Plan> {
     const SKIP: u32 = u32::MAX; // game not run in this tier
     let plans = vec![
         Plan { label: "anm sprite ids: sprite shape x id pattern per sprite (full product)", fam: "anm",
-               games: g(&[("th12", 0, 1), ("th06", 0, 0), ("th08", 0, 0), ("th07", SKIP, 0), ("th10", SKIP, 0), ("th17", SKIP, 0)]),
+               games: g(&[("th12", 0, 0), ("th06", 0, 0), ("th08", 0, 0), ("th07", SKIP, 0), ("th10", SKIP, 0), ("th17", SKIP, 0)]),
                prof: vec![F_SHAPE | F_IDS, 3, 3, if t { 4 } else { 3 }, 2], max_cases: 4_000_000 },
+        Plan { label: "anm sprite ids (<= 3 sprites): shape x id pattern (full product) + 1 deviation", fam: "anm",
+               games: g(&[("th12", SKIP, 1)]),
+               prof: vec![F_SHAPE | F_IDS, 3, 3, 3, 2], max_cases: 4_000_000 },
         Plan { label: "anm shared/clashing sprite names (full product) + deviations", fam: "anm",
-               games: g(&[("th12", 2, 4), ("th07", 2, 3), ("th06", SKIP, 3), ("th17", SKIP, 3)]),
+               games: g(&[("th12", 2, 3), ("th07", 2, 3), ("th06", SKIP, 2), ("th17", SKIP, 2)]),
                prof: vec![F_NAMES, 3, 3, if t { 4 } else { 3 }, 3], max_cases: 4_000_000 },
         Plan { label: "anm script shape x use host/kind/target (full product) + deviations", fam: "anm",
                games: g(&[("th12", 1, 2), ("th10", 0, 1), ("th17", 0, 1), ("th06", 0, 1), ("th07", SKIP, 1), ("th08", SKIP, 1)]),
@@ -1092,7 +1095,7 @@ fn plans(thorough: bool) -> Vec<Plan> {
                games: g(&[("th12", 3, 4), ("th06", SKIP, 3), ("th07", SKIP, 3), ("th08", SKIP, 3), ("th10", SKIP, 3), ("th17", SKIP, 3)]),
                prof: vec![0, 3, 3, 4, 3], max_cases: 4_000_000 },
         Plan { label: "msg table contents x default (full product) + deviations", fam: "msg",
-               games: g(&[("th06", 1, 1), ("th09", 1, 1), ("th12", 0, 1), ("th08", SKIP, 0), ("th17", SKIP, 0)]),
+               games: g(&[("th06", 1, 1), ("th09", 1, 1), ("th12", 0, 0), ("th08", SKIP, 0), ("th17", SKIP, 0)]),
                prof: vec![F_IDS | F_NAMES, if t { 4 } else { 3 }, if t { 5 } else { 4 }], max_cases: 4_000_000 },
         Plan { label: "msg script count x file order x meta position (full product) + deviations", fam: "msg",
                games: g(&[("th06", 1, 2), ("th09", 1, 2), ("th12", 0, 1)]),
@@ -1101,7 +1104,7 @@ fn plans(thorough: bool) -> Vec<Plan> {
                games: g(&[("th06", 2, 3), ("th09", 2, 3), ("th12", 1, 2)]),
                prof: vec![F_X1 | F_X2, 4, 5], max_cases: 4_000_000 },
         Plan { label: "ecl sub count x use host/kind/target (full product) + deviations", fam: "ecl",
-               games: g(&[("th06", 1, 2), ("th07", 1, 2), ("th08", 1, 2)]),
+               games: g(&[("th06", 1, 1), ("th07", 1, 1), ("th08", 1, 2)]),
                prof: vec![F_SHAPE | F_USES, if t { 4 } else { 3 }, 3], max_cases: 4_000_000 },
         Plan { label: "ecl sub count x timeline count x index pattern x timeline target (full product)", fam: "ecl",
                games: g(&[("th06", 1, 2), ("th07", 0, 1), ("th08", 0, 1)]),
